@@ -426,4 +426,8 @@ def units(tier):
     us += [IntShift(2, (2,), (2,), cplx=True, crop=True), FracShift(2, (), (), cplx=False, crop=True), FracShift(2, (2,), (2,), cplx=True, crop=True)]
     if tier != "quick":
         us += [IntShift(4, (2,), (), cplx=False, crop=True), FracShift(4, (), (), cplx=True, crop=True)]
+    # whole-sample snippets (the units live in C12's harness): n samples from sample t on, timestamps of the retained samples kept,
+    # also for n = 0
+    from .C12 import Whole
+    us += [Whole("Signal", "count"), Whole("RadioSignal", "duration", rate="kHz")]
     return us
